@@ -130,7 +130,9 @@ TrTx ==
                  DepositFair(L, M, s, Ev.spec.to, Ev.spec.amount), "C15", "deposit not fair">>,
             <<(ok /\ ~sys /\ Ev.spec.kind = "reclaim" /\ Ev.spec.to \in DOMAIN L.acc) =>
                  ReclaimFair(L, M, s, Ev.spec.to, Ev.spec.amount), "C15", "reclaim not fair">>,
-            <<sys \/ PriceNotFalling(L, M), "C15", "share price fell in a transaction">>,
+            \* (runtime equivocation evidence slashes an escrow inside a transaction)
+            <<sys \/ (ok /\ Ev.spec.kind = "rhevidence") \/ (ok /\ Ev.spec.kind = "mutated" /\ Ev.spec.gov = "roothash.Evidence")
+                 \/ PriceNotFalling(L, M), "C15", "share price fell in a transaction">>,
             <<\A x \in DebSet(L) : StillQueued(x, M), "C15", "debonding entry removed by a transaction">>
           >>)
        \* Op refinement (drift only)
